@@ -293,11 +293,12 @@ class BCHCodeEncoder(CyclicCodeEncoder):
         """Compute the parity check matrix from the generator matrix."""
         # For a systematic code, the check matrix H can be derived from the generator matrix G.
         # If G = [I_k | P], then H = [P^T | I_(n-k)]
-        identity_part = torch.eye(self._redundancy, dtype=self._dtype, device=self.generator_matrix.device)
-        parity_part = self.generator_matrix[:, self._dimension :].T
-
-        # Construct H = [P^T | I_m]
-        self._check_matrix = torch.cat([parity_part, identity_part], dim=1)
+        # The identity goes on the parity set and P^T on the information set, so that
+        # the result is also valid for information_set='right' or an index list
+        check_matrix = torch.zeros((self._redundancy, self._length), dtype=self._dtype, device=self.generator_matrix.device)
+        check_matrix[:, self.parity_set] = torch.eye(self._redundancy, dtype=self._dtype, device=self.generator_matrix.device)
+        check_matrix[:, self.information_set] = self.parity_submatrix.T.to(self._dtype)
+        self._check_matrix = check_matrix
 
     @property
     def mu(self) -> int:
